@@ -1,90 +1,167 @@
-(* C18 (CEM): best-so-far bookkeeping with NaN losses; order-theoretic, losses in Z ∪ {+inf, NaN} *)
-From Coq Require Import List Arith ZArith Bool Lia.
+(* C18 model: rex/cem.py (gaussian_samples, cem_update_mean_stdev, cem_step, cem) and the rex wrapper around evosax in
+   rex/evo.py (evo_step, evo).  Proofs are in CemLaws.v.
+
+   Losses.  A float loss is -inf, a finite value, +inf or NaN.  Finite values are integers in a fixed unit (every float32 is
+   an integer multiple of 2^-149, so Z covers all of them exactly; the harness scales by that unit).
+   Candidates are flat vectors over Q (the pytree structure is irrelevant: every operation of the solver is leaf- and
+   coordinate-wise).  Gaussian noise, the loss function (which also receives its own rng, so it may differ between
+   evaluations), the square root used by jnp.std, and evosax's ask/tell are Section variables. *)
+From Coq Require Import List Arith ZArith QArith Qminmax Bool.
+From Rex Require Import Ops.
 Import ListNotations.
-Open Scope Z_scope.
 
-Inductive loss := Fin (v : Z) | PInf | NaN.
-(* jnp.where(jnp.isnan(l), inf, l) *)
-Definition clean (l : loss) : option Z := match l with Fin v => Some v | _ => None end.   (* None = +inf *)
-Definition ltb (a b : option Z) : bool :=
-  match a, b with Some x, Some y => x <? y | Some _, None => true | None, _ => false end.
-Definition leb (a b : option Z) : bool := negb (ltb b a).
-Definition emin (a b : option Z) : option Z := if ltb b a then b else a.
+Inductive ext := NInf | Val (v : Z) | PInf.
+Inductive loss := Num (e : ext) | NaN.
 
-(* index of the first minimal element = elite_indices[0] of a stable argsort *)
-Fixpoint argmin_from (i : nat) (best : nat * option Z) (l : list (option Z)) : nat * option Z :=
-  match l with [] => best
-  | x :: l => argmin_from (S i) (if ltb x (snd best) then (i, x) else best) l end.
-Definition argmin (l : list (option Z)) : nat * option Z :=
-  match l with [] => (0%nat, None) | x :: l => argmin_from 1 (0%nat, x) l end.
+(* losses = jnp.where(jnp.isnan(losses), jnp.inf, losses) *)
+Definition is_nan (l : loss) : bool := match l with NaN => true | _ => false end.
+Definition num_of (l : loss) : ext := match l with Num e => e | NaN => PInf end.   (* the float's value when it is not NaN *)
+Definition clean (l : loss) : ext := if is_nan l then PInf else num_of l.
 
-Record cstate (C : Type) := { best : C; best_loss : option Z }.
-Arguments best {C}. Arguments best_loss {C}.
+(* float comparison a < b on non-NaN values *)
+Definition ltb (a b : ext) : bool :=
+  match a, b with
+  | NInf, NInf => false | NInf, _ => true
+  | Val _, NInf => false | Val x, Val y => (x <? y)%Z | Val _, PInf => true
+  | PInf, _ => false
+  end.
+Definition leb (a b : ext) : bool := negb (ltb b a).
+Definition emin (a b : ext) : ext := if ltb b a then b else a.
+Fixpoint lmin (l : list ext) : ext := match l with [] => PInf | x :: l => emin x (lmin l) end.
+Definition finite (e : ext) : bool := match e with Val _ => true | _ => false end.
 
-(* the "Update bestsofar" block of cem_update_mean_stdev *)
-Definition update {C} (dflt : C) (s : cstate C) (samples : list C) (losses : list loss) : cstate C :=
-  let cl := map clean losses in
-  let '(bi, bl) := argmin cl in
-  if ltb (best_loss s) bl then s else {| best := nth bi samples dflt; best_loss := bl |}.
+(* jnp.argsort (stable): insertion sort of (index, key) pairs; an earlier element goes before every later element with a
+   key that is not smaller *)
+Fixpoint ins (x : nat * ext) (l : list (nat * ext)) : list (nat * ext) :=
+  match l with
+  | [] => [x]
+  | y :: l' => if leb (snd x) (snd y) then x :: l else y :: ins x l'
+  end.
+Definition index {A} (l : list A) : list (nat * A) := combine (seq 0 (length l)) l.
+Definition sort_pairs (l : list (nat * ext)) : list (nat * ext) := fold_right ins [] l.
+Definition argsort (cl : list ext) : list nat := map fst (sort_pairs (index cl)).
+(* elite_indices = jnp.argsort(losses)[:num_elites] *)
+Definition elites (ne : nat) (cl : list ext) : list nat := firstn ne (argsort cl).
 
-Fixpoint lmin (l : list (option Z)) : option Z := match l with [] => None | x :: l => emin x (lmin l) end.
+(* scalar kernels, carrier-generic (R for the tie, Q for execution) *)
+Section K.
+Context {A : Type} (O : ops A).
+(* sample(): jnp.clip(mean + stdev * noises, u_min, u_max) *)
+Definition gauss (m sd lo hi z : A) : A := omin O (omax O (oadd O m (omul O sd z)) lo) hi.
+(* evolution_smoothing * x + (1 - evolution_smoothing) * y *)
+Definition smooth (s x y : A) : A := oadd O (omul O s x) (omul O (osub O (oz O 1) s) y).
+End K.
 
-Ltac solve_ord :=
-  unfold emin, leb, ltb in *;
-  repeat match goal with x : option Z |- _ => destruct x end; simpl in *;
-  repeat match goal with
-  | |- context [?a <? ?b] => destruct (Z.ltb_spec a b); simpl in *
-  | H : context [?a <? ?b] |- _ => destruct (Z.ltb_spec a b); simpl in *
-  end; try discriminate; try reflexivity; try (f_equal; lia); try lia.
+Definition cand := list Q.
+Definition qsum (l : list Q) : Q := fold_right Qplus 0 l.
+Definition qmean (l : list Q) : Q := qsum l / inject_Z (Z.of_nat (length l)).
+Definition qvar (l : list Q) : Q := let m := qmean l in qmean (map (fun x => (x - m) * (x - m)) l).
+Definition col (k : nat) (xs : list cand) : list Q := map (fun x => nth k x 0) xs.
+Definition vec (d : nat) (f : nat -> Q) : cand := map f (seq 0 d).
+Definition at_ (v : cand) (k : nat) : Q := nth k v 0.
 
-Lemma ltb_irrefl a : ltb a a = false.
-Proof. solve_ord. Qed.
+(* gaussian_samples for one candidate: d coordinates *)
+Definition gauss_sample (d : nat) (m sd lo hi z : cand) : cand :=
+  vec d (fun k => gauss Qops (at_ m k) (at_ sd k) (at_ lo k) (at_ hi k) (at_ z k)).
 
-Lemma argmin_from_spec l : forall i b, snd (argmin_from i b l) = emin (snd b) (lmin l).
-Proof.
-  induction l as [|x l IH]; intros i [bi sb]; simpl.
-  - solve_ord.
-  - rewrite IH. generalize (lmin l) as r. intros r. destruct (ltb x sb) eqn:E; simpl; solve_ord.
-Qed.
+Record cstate := { mean : cand; stdev : cand; best : cand; best_loss : ext }.
 
-Lemma argmin_loss l : snd (argmin l) = lmin l.
-Proof.
-  destruct l as [|x l]; [reflexivity|]. unfold argmin. rewrite argmin_from_spec. reflexivity.
-Qed.
+(* "Update bestsofar": jnp.where(state.bestsofar_loss < best_loss, old, new) *)
+Definition pick {C} (old_loss new_loss : ext) (old new : C) : C := if ltb old_loss new_loss then old else new.
 
-(* the reported best loss after an update is the minimum of the old one and all (cleaned) new losses *)
-Theorem update_best_loss {C} (d : C) s samples losses :
-  best_loss (update d s samples losses) = emin (best_loss s) (lmin (map clean losses)).
-Proof.
-  unfold update. destruct (argmin (map clean losses)) as [bi bl] eqn:E.
-  assert (Hbl : bl = lmin (map clean losses)) by (rewrite <- argmin_loss, E; reflexivity).
-  subst bl. generalize (lmin (map clean losses)) as r. intros r. destruct s as [b bl]. simpl.
-  destruct (ltb bl r) eqn:E1; simpl; solve_ord.
-Qed.
+Section Cem.
+Variable sqrtq : Q -> Q.          (* jnp.std = sqrt of the (biased) variance *)
+Variable sm : Q -> Q -> Q -> Q.   (* the smoothing kernel; `smooth Qops` in execution (tie: Ties/CemTie.v) *)
+Variables (d N ne : nat) (s : Q) (lo hi : cand).
 
-(* never increases *)
-Corollary best_nonincreasing {C} (d : C) s samples losses :
-  leb (best_loss (update d s samples losses)) (best_loss s) = true.
-Proof.
-  rewrite update_best_loss. generalize (lmin (map clean losses)) as r. intros r. destruct s as [b bl]. simpl. solve_ord.
-Qed.
+Definition elite_samples (xs : list cand) (cl : list ext) : list cand := map (fun i => nth i xs []) (elites ne cl).
 
-Lemma lmin_le_member l v : In (Some v) l -> exists w, lmin l = Some w /\ w <= v.
-Proof.
-  induction l as [|x l IH]; [contradiction|]. intros [->|Hin]; simpl.
-  - destruct (lmin l) as [y|]; [|exists v; split; [reflexivity|lia]].
-    unfold emin, ltb. destruct (Z.ltb_spec y v); eexists; split; try reflexivity; lia.
-  - destruct (IH Hin) as (w & -> & Hle). destruct x as [y|]; [|exists w; split; [reflexivity|lia]].
-    unfold emin, ltb. destruct (Z.ltb_spec w y); eexists; split; try reflexivity; lia.
-Qed.
+(* cem_update_mean_stdev(solver, state, samples, losses) *)
+Definition update (st : cstate) (xs : list cand) (ls : list loss) : cstate :=
+  let cl := map clean ls in
+  let el := elites ne cl in
+  let exs := elite_samples xs cl in
+  let bi := hd 0%nat el in
+  let bl := nth bi cl PInf in
+  {| mean := vec d (fun k => sm s (at_ (mean st) k) (qmean (col k exs)));
+     stdev := vec d (fun k => sm s (at_ (stdev st) k) (sqrtq (qvar (col k exs))));
+     best := pick (best_loss st) bl (best st) (nth bi xs []);
+     best_loss := pick (best_loss st) bl (best_loss st) bl |}.
 
-(* a NaN loss is never the reported best while some finite loss has been evaluated: the best is finite then *)
-Corollary nan_never_best {C} (d : C) s samples losses v :
-  In (Fin v) losses -> exists w, best_loss (update d s samples losses) = Some w /\ w <= v.
-Proof.
-  intros Hin. rewrite update_best_loss.
-  destruct (lmin_le_member (map clean losses) v) as (w & Hw & Hle); [apply (in_map clean _ _ Hin)|].
-  rewrite Hw. destruct (best_loss s) as [b|]; [|exists w; split; [reflexivity|lia]].
-  unfold emin, ltb. destruct (Z.ltb_spec w b); eexists; split; try reflexivity; lia.
-Qed.
-Print Assumptions update_best_loss.
+(* solver.init_state(mean, stdev) *)
+Definition init_state (m sd : cand) : cstate := {| mean := m; stdev := sd; best := m; best_loss := PInf |}.
+
+Variable noise : nat -> nat -> cand.          (* iteration, sample index -> standard-normal draws *)
+Variable f : nat -> nat -> cand -> loss.      (* iteration, sample index (the loss's own rng), candidate -> loss *)
+
+Definition sample_all (i : nat) (st : cstate) : list cand :=
+  map (fun j => gauss_sample d (mean st) (stdev st) lo hi (noise i j)) (seq 0 N).
+Definition losses_of (i : nat) (xs : list cand) : list loss := map (fun j => f i j (nth j xs [])) (seq 0 N).
+(* cem_step *)
+Definition step (i : nat) (st : cstate) : cstate := let xs := sample_all i st in update st xs (losses_of i xs).
+(* cem: lax.scan of cem_step *)
+Fixpoint run (n : nat) (st : cstate) : cstate := match n with O => st | S n => step n (run n st) end.
+(* everything evaluated during the first n iterations, as (candidate, loss) *)
+Fixpoint evals (n : nat) (st : cstate) : list (cand * loss) :=
+  match n with O => [] | S n => let xs := sample_all n (run n st) in evals n st ++ combine xs (losses_of n xs) end.
+End Cem.
+
+(* ---------------------------------------------------------------------------------------------------------------------
+   rex/evo.py: evo_step = ask; vmap loss; NaN -> inf; tell.   evosax is external: ask/tell/state are Section variables.
+   tell receives NaN-free fitness (type ext): rex's wrapper must clean the losses before calling it. *)
+Section Evo.
+Variable ES : Type.
+Variable ask : nat -> ES -> list cand * ES.                    (* rng, state -> population, state *)
+Variable tell : list cand -> list ext -> ES -> ES.
+Variable best_fitness : ES -> ext.
+Variable best_member : ES -> cand.
+Variable f : nat -> nat -> cand -> loss.
+
+Definition evo_losses (i : nat) (xs : list cand) : list loss := map (fun j => f i j (nth j xs [])) (seq 0 (length xs)).
+Definition evo_step (i : nat) (st : ES) : ES :=
+  let '(xs, st1) := ask i st in
+  let losses := evo_losses i xs in
+  let loss_nonan := map clean losses in
+  tell xs loss_nonan st1.
+Fixpoint evo_run (n : nat) (st : ES) : ES := match n with O => st | S n => evo_step n (evo_run n st) end.
+Fixpoint evo_evals (n : nat) (st : ES) : list (cand * loss) :=
+  match n with O => [] | S n => let xs := fst (ask n (evo_run n st)) in evo_evals n st ++ combine xs (evo_losses n xs) end.
+End Evo.
+
+(* index of the first minimum (jnp.argmin on NaN-free input) *)
+Definition argmin (l : list ext) : nat := hd 0%nat (argsort l).
+
+(* ---------------------------------------------------------------------------------------------------------------------
+   checker for an implementation history (one solver run observed from outside): per iteration the population, the raw
+   losses and the reported (best, best loss) after the iteration.  Soundness: CemLaws.check_history_sound. *)
+Definition qeqb_list (a b : cand) : bool := (length a =? length b)%nat && forallb (fun p => Qeq_bool (fst p) (snd p)) (combine a b).
+Definition ext_eqb (a b : ext) : bool :=
+  match a, b with NInf, NInf => true | PInf, PInf => true | Val x, Val y => (x =? y)%Z | _, _ => false end.
+Definition in_box (lo hi x : cand) : bool :=
+  (length x =? length lo)%nat && (length x =? length hi)%nat &&
+  forallb (fun p => Qle_bool (fst (fst p)) (snd p) && Qle_bool (snd p) (snd (fst p))) (combine (combine lo hi) x).
+Record iter := { pop : list cand; raw : list loss; rep_best : cand; rep_loss : ext }.
+(* one iteration, given the (best, best loss) reported before it *)
+Definition check_iter (lo hi : cand) (pb : cand) (prev : ext) (it : iter) : bool :=
+  let cl := map clean (raw it) in
+  (length (pop it) =? length (raw it))%nat &&
+  forallb (in_box lo hi) (pop it) &&
+  ext_eqb (rep_loss it) (emin prev (lmin cl)) &&
+  leb (rep_loss it) prev &&
+  (* the reported candidate is the previous one with the previous loss, or a member of this population whose cleaned loss
+     is the reported one *)
+  ((qeqb_list (rep_best it) pb && ext_eqb (rep_loss it) prev) ||
+   existsb (fun p => qeqb_list (fst p) (rep_best it) && ext_eqb (clean (snd p)) (rep_loss it)) (combine (pop it) (raw it))).
+Fixpoint check_history (lo hi : cand) (pb : cand) (prev : ext) (h : list iter) : bool :=
+  match h with [] => true | it :: h => check_iter lo hi pb prev it && check_history lo hi (rep_best it) (rep_loss it) h end.
+
+(* ---------------------------------------------------------------------------------------------------------------------
+   a reference strategy meeting the ask/tell contract assumed of evosax (Strategy.ask clips the proposal, Strategy.tell keeps
+   the least fitness seen and the first member of the generation attaining it when it is strictly better): used to show the
+   contract is satisfiable and, by the harness, to validate evosax against it on every run *)
+Definition clip_box (d : nat) (lo hi x : cand) : cand := vec d (fun k => Qmin (Qmax (at_ x k) (at_ lo k)) (at_ hi k)).
+Definition ref_state := (cand * ext)%type.
+Definition ref_ask (d : nat) (lo hi : cand) (proposal : nat -> list cand) (i : nat) (st : ref_state) : list cand * ref_state :=
+  (map (clip_box d lo hi) (proposal i), st).
+Definition ref_tell (xs : list cand) (fit : list ext) (st : ref_state) : ref_state :=
+  (if ltb (lmin fit) (snd st) then nth (argmin fit) xs [] else fst st, emin (snd st) (lmin fit)).
